@@ -100,11 +100,11 @@ void h_dataseg(void) {
 
 /* ---------- custom section: skipped by exactly its size, module untouched (debug off) ---------- */
 void h_custom(void) {
-    ND(unsigned, nlen); ND(unsigned, plen); PAD(Ln); ND_ARR(U8, bytes, 12); ND_ARR(U8, tail, 2);
+    ND(unsigned, nlen); ND(unsigned, plen); PAD(Ln); ND_ARR(U8, bytes, 12); ND_ARR(U8, tail, 2); ND(unsigned, tl);   /* tl: 0..2 bytes follow the section (0: it is the last thing in the file) */
     U8 e[BUFSZ]; unsigned n = 0, i, size; WasmModuleReader r; WasmModuleReaderError* err = 0; static WasmModule m; WasmModule before;
-    ASSUME(nlen <= 6 && plen <= 6 && fits_u(nlen, Ln));
+    ASSUME(nlen <= 6 && plen <= 6 && fits_u(nlen, Ln) && tl <= 2);
     n = put_u(e, n, nlen, Ln); for (i = 0; i < nlen; i++) e[n++] = bytes[i]; for (i = 0; i < plen; i++) e[n++] = bytes[6 + i];
-    size = n; e[n++] = tail[0]; e[n++] = tail[1];
+    size = n; if (tl >= 1) e[n++] = tail[0]; if (tl >= 2) e[n++] = tail[1];
     /* not a debug section, and names are NUL-free (a name is a UTF-8 string) */
     for (i = 0; i < nlen; i++) ASSUME(bytes[i] != 0);
     ASSUME(!(nlen >= 7));
@@ -112,7 +112,7 @@ void h_custom(void) {
     memset(&m, 0, sizeof m); memset(&r, 0, sizeof r); r.module = &m; r.debug = false; r.buffer.data = e; r.buffer.length = n; before = m;
     wasmReadCustomSection(&r, size, &err);
     OBL(err == 0, "custom section: any custom section (any name, any content, padded name length) is accepted");
-    OBL(r.buffer.data == e + size && r.buffer.length == 2, "custom section: exactly the section's bytes are skipped, wherever the section stands");
+    OBL(r.buffer.data == e + size && r.buffer.length == tl, "custom section: exactly the section's bytes are skipped, wherever the section stands (also as the very last bytes of the file, with an empty payload)");
     OBL(memcmp(&before, &m, sizeof m) == 0, "custom section: with debug output off the decoded module is untouched");
     CANARY("custom");
 }
